@@ -258,10 +258,16 @@ class ProbabilisticNode(Node):
             Removes the next states that have
             zero probability of reaching the final states.
         """
-        for _next_state in self.next_states:
+        # remove_path rebuilds the list, so scan by position and only move
+        # on when the current entry survives
+        position = 0
+        while position < len(self.next_states):
+            _next_state = self.next_states[position]
             next_state = state_list[_next_state[NEXT_STATE_IDX]]
             if next_state.reach_probability == 0:
                 self.remove_path(_next_state)
+            else:
+                position += 1
 
     def remove_path(self, state_to_remove):
         """
@@ -341,7 +347,7 @@ class PlayerOne(Node):
             Removes the next states that have zero probability of reaching
             the final states.
         """
-        for _next_state in self.next_states:
+        for _next_state in list(self.next_states):
             next_state = state_list[_next_state[NEXT_STATE_IDX]]
             if next_state.reach_probability == 0:
                 self.remove_path(_next_state)
